@@ -82,6 +82,22 @@ buf_compare_masked (const uint8_t *a, const uint8_t *b, pixman_format_code_t fmt
     int s = stride_bytes < 0 ? -stride_bytes : stride_bytes;
     long used = ((long)width * bpp + 7) / 8;
     int y, x;
+    if (bpp > 32 && pixmask != 0xffffffffu)
+    {
+	/* float formats: pixmask is a per-component mask (bit c = compare component c) */
+	int nc = bpp / 32, c;
+	for (y = 0; y < height; y++)
+	{
+	    const uint32_t *ra = (const uint32_t *)(a + (long)y * s), *rb = (const uint32_t *)(b + (long)y * s);
+	    long i;
+	    for (x = 0; x < width; x++)
+		for (c = 0; c < nc; c++)
+		    if ((pixmask >> c & 1) && ra[x * nc + c] != rb[x * nc + c]) return (long)y * s + ((long)x * nc + c) * 4;
+	    for (i = used; i < s; i++)
+		if (a[(long)y * s + i] != b[(long)y * s + i]) return (long)y * s + i;
+	}
+	return -1;
+    }
     if (bpp > 32 || pixmask == 0xffffffffu)
     {
 	long i, n = (long)s * height;
@@ -118,6 +134,19 @@ buf_hash_masked (uint64_t h, const uint8_t *a, pixman_format_code_t fmt,
     int s = stride_bytes < 0 ? -stride_bytes : stride_bytes;
     long used = ((long)width * bpp + 7) / 8;
     int y, x;
+    if (bpp > 32 && pixmask != 0xffffffffu)
+    {
+	int nc = bpp / 32, c;
+	for (y = 0; y < height; y++)
+	{
+	    const uint32_t *ra = (const uint32_t *)(a + (long)y * s);
+	    for (x = 0; x < width; x++)
+		for (c = 0; c < nc; c++)
+		    if (pixmask >> c & 1) h = fnv_bytes (h, &ra[x * nc + c], 4);
+	    if (s > used) h = fnv_bytes (h, a + (long)y * s + used, s - used);
+	}
+	return h;
+    }
     if (bpp > 32 || pixmask == 0xffffffffu)
 	return fnv_bytes (h, a, (size_t)s * height);
     for (y = 0; y < height; y++)
